@@ -17,7 +17,8 @@ type pollQueue struct {
 
 func newPollQueue() *pollQueue {
 	return &pollQueue{
-		ready: make(chan struct{}),
+		// Buffered, so that a signal sent while no poll is waiting in the select is not lost.
+		ready: make(chan struct{}, 1),
 	}
 }
 
@@ -32,14 +33,24 @@ func (pq *pollQueue) poll(pollTimeout time.Duration) []*parser.Packet {
 	}
 	vhook.Yield("pollq.poll.beforeWait", pq)
 
-	select {
-	case <-pq.ready:
-		packets = pq.get()
-		vhook.Event("pollq.ret", "o", pq, "n", len(packets), "via", "ready")
-	case <-time.After(pollTimeout):
-		vhook.Event("pollq.ret", "o", pq, "n", len(packets), "via", "timeout")
+	timeout := time.After(pollTimeout)
+	for {
+		select {
+		case <-pq.ready:
+			packets = pq.get()
+			if len(packets) == 0 {
+				// Stale signal: the packets were already taken. Keep waiting.
+				continue
+			}
+			vhook.Event("pollq.ret", "o", pq, "n", len(packets), "via", "ready")
+			return packets
+		case <-timeout:
+			// Packets may have been added since we last looked.
+			packets = pq.get()
+			vhook.Event("pollq.ret", "o", pq, "n", len(packets), "via", "timeout")
+			return packets
+		}
 	}
-	return packets
 }
 
 // add a packet to the queue and signal the other goroutine (if any).
